@@ -31,6 +31,11 @@ CLAIMS = {
         text="Machine-checked for all dr::Module values (any combination of missing header/def/end/label and empty sections) and any instruction type: all-instructions traversal = global traversal ++ per-function traversals; mutable twins equal their read-only counterparts; assembly = header words ++ flatMap of per-instruction assembly over the traversal; explicit layout order. The chain orders are data read from the source by a strict translator on every run; a reordered, missing or duplicated field breaks the `orders_ok` obligation and the oracle then finds the one- or two-instruction witness module.",
         note="Trusted: Lean kernel + standard axioms; translator traversals.py (every token of the iterator and assemble_into bodies); std iterator semantics; hand model Module.lean and its differential tie.",
         ref="DESIGN.md §8 C15"),
+    "C11": dict(
+        technique="Lean 4 theorems by case analysis and induction over request histories on a statement-by-statement model of binary::Decoder with explicit panic sites; differential `dec` channel against the real Decoder",
+        text="Machine-checked for every buffer and every finite sequence of requests and limit changes: word/words/bit64/typed requests return the little-endian words at the offset and advance by 4 per word, failures leave the offset and report it, string returns the bytes up to the first NUL (valid UTF-8), consumes nul/4+1 words, never beyond the buffer or the limit; after set_limit n the offset never passes offset+4n; no request panics (all slice/arith panic sites of the Rust text are explicit model outcomes proved unreachable under offset<=len). The pre-fix code violated this (3 panics, fixed by commit 2fc78a6, corpus runs first).",
+        note="Trusted: Lean kernel + standard axioms; hand model Decoder.lean tied by the differential `dec` channel (seeded buffers/scripts, every one of the 56 generated typed methods exercised); slices <= isize::MAX; from_le_bytes; str::from_utf8 modelled by validUtf8 (fuzzed).",
+        ref="DESIGN.md §8 C11"),
 }
 
 
